@@ -324,7 +324,12 @@ class bspline(object):
             B-spline values.
         """
         bkpt = self.breakpoints[self.mask]
-        vnikx = np.zeros((x.size, self.nord), dtype=x.dtype)
+        #
+        # The basis functions are real numbers whatever the type of x
+        # (e.g. pixel indices from np.arange).
+        #
+        vnikx = np.zeros((x.size, self.nord),
+                         dtype=(x.dtype if x.dtype.kind == 'f' else 'd'))
         deltap = vnikx.copy()
         deltam = vnikx.copy()
         j = 0
@@ -378,7 +383,7 @@ class bspline(object):
                 raise ValueError('Must specify lower and upper if action is set.')
         else:
             action, lower, upper = self.action(xwork, x2=x2work)
-        yfit = np.zeros(x.shape, dtype=x.dtype)
+        yfit = np.zeros(x.shape, dtype=(x.dtype if x.dtype.kind == 'f' else 'd'))
         bw = self.npoly * self.nord
         spot = np.arange(bw, dtype='i4')
         goodbk = self.mask.nonzero()[0]
